@@ -34,8 +34,8 @@ def main():
             "engine": "tla-trace-validation",
             "level_claimed": {
                 "category": "model_checking",
-                "text": p.get("level_text", ""),
-                "design_ref": p.get("design_ref", "DESIGN.md section 4 (%s)" % pid),
+                "text": p.get("level_text", "bounded model checking of the TLA+ specification with TLC plus trace validation of recorded executions of the real code; " + p.get("rule", "")),
+                "design_ref": p.get("design_ref", "DESIGN.md section 3 (%s)" % pid),
             },
             "level_note": p.get("level_note", "Trusted: TLC/SANY + Json module, the Go toolchain, the event recorder of the harness. "
                                 "Bounded: exhaustive only inside the stated small scopes, seeded generation elsewhere."),
